@@ -129,8 +129,13 @@ def handle : Handler := fun j a => do
         a := a.mismatch s!"c04 trace impl={repr (canon block trace)} model={repr (canon block mtr)} active={active} changes={repr ch} cls={repr cls} on {j.compress}"
       -- timers
       let tAfter := parseTimers j "timers_after"
+      -- a timer started in this iteration is read off the clock somewhere inside it: any instant of the iteration matches
+      let nowEnd := (jInt j "now_end").toOption.getD now
+      let tBefore := parseTimers j "timers"
+      let tAfterN : Timers := tAfter.map fun (h, v) =>
+        if (tBefore.lookup h).isNone && timers'.lookup h == some now && now ≤ v && v ≤ nowEnd then (h, now) else (h, v)
       let norm := fun (t : Timers) => sortStr (t.map fun (h, v) => s!"{h}={v}")
-      if norm timers' != norm tAfter then a := a.mismatch s!"c04 timers impl={norm tAfter} model={norm timers'} on {j.compress}"
+      if norm timers' != norm tAfterN then a := a.mismatch s!"c04 timers impl={norm tAfter} model={norm timers'} on {j.compress}"
       -- world conformance of my own fake (harness inconsistency, never a property violation)
       let wEnd := world0.run master trace
       if sortStr wEnd.slaveEnabled != sortStr final.slaveEnabled || wEnd.masterEnabled != final.masterEnabled ||
